@@ -1,5 +1,5 @@
 (* Extraction of the C16 model: ExtrOcamlBasic only, no Extract Constant.  The arithmetic record
-   `ops` (C08Model) and the constants -1.0, 1e-14, 1e-6 are supplied by the OCaml driver from OCaml's
+   `ops` (C08Model) and the constants -DBL_MAX, 1e-14, 1e-6 are supplied by the OCaml driver from OCaml's
    float operations. *)
 Require Import ExtrOcamlBasic.
 From SharkV Require Import C08Model C16Model.
